@@ -194,6 +194,16 @@ static void do_getopt(long c)
 }
 
 // ---- B: splitCommandLine ---------------------------------------------------------------------
+// Two seams, chosen at compile time:
+//  direct (L-int): the file-local helper  static void Process::Private::splitCommandLine(const String&, C&)  where C is
+//          whatever container of String the code fills (List<String> today); it is found by SFINAE and C is deduced
+//          from the function's type, so a change of the container or of the loop inside does not break the harness.
+//  public: when there is no such function (renamed, inlined, other signature) the line is split by the PUBLIC
+//          Process::open(commandLine, stdoutStream): the helper child is started with  "./ac " + line  and echoes its
+//          argument vector; the words are argv[1..].  (After the first word and its space the scanner is in its initial
+//          state again, so for the reference  split("./ac " + l) = "./ac" :: split(l).)  One exec per case: slower,
+//          and `harness --seam` says `public` so that the check writes into the evidence that the L-int seam was not
+//          available on this tree.
 static sigjmp_buf jb;
 static volatile int armed = 0;
 static void on_vtalrm(int) { if(armed) { armed = 0; siglongjmp(jb, 1); } }
@@ -206,20 +216,33 @@ static void arm(long ms)
   setitimer(ITIMER_VIRTUAL, &it, 0);
 }
 
-static void do_split(long c, const char* hex)
+struct Buf { unsigned char* d; size_t n, cap; };
+static void buf_add(Buf& b, const void* p, size_t n)
 {
-  char* s = cstr_exact(hex);
-  size_t n = strlen(s);
+  if(b.n + n > b.cap) { b.cap = (b.n + n) * 2 + 4096; b.d = (unsigned char*)realloc(b.d, b.cap); }
+  memcpy(b.d + b.n, p, n); b.n += n;
+}
+
+template<class P> struct SplitSeam {
+  template<class C> static C* container_of(void (*)(const String&, C&));
+  template<class Q> static char (&probe(decltype(container_of(&Q::splitCommandLine))))[2];
+  template<class Q> static char (&probe(...))[1];
+  enum { direct = sizeof(probe<P>(0)) == 2 };
+};
+
+template<class C> static void split_direct_with(void (*split)(const String&, C&), long c, const char* s, size_t n)
+{
   // String keeps its own copy; give it an exact-size one too (String(const char*, len) allocates len+1)
   String* cmdline = new String(s, n);
-  List<String>* words = new List<String>;
+  C* words = new C;
   if(sigsetjmp(jb, 1) == 0) {
     arm(10 + (long)n / 100);      // CPU time; the loop in question spins without allocating
-    Process::Private::splitCommandLine(*cmdline, *words);
+    split(*cmdline, *words);
     arm(0);
     printf("%ld words %d", c, (int)words->size());
-    for(List<String>::Iterator i = words->begin(), end = words->end(); i != end; ++i) {
-      printf(" "); puthexs((const char*)*i, i->length());
+    for(typename C::Iterator i = words->begin(), end = words->end(); i != end; ++i) {
+      const String& w = *i;
+      printf(" "); puthexs((const char*)w, w.length());
     }
     printf("\n");
     delete words;
@@ -228,16 +251,67 @@ static void do_split(long c, const char* hex)
     arm(0);
     printf("%ld ! timeout\n", c);   // words/cmdline are leaked on purpose (state unknown)
   }
+}
+
+template<bool direct> struct Splitter;
+template<> struct Splitter<true> {
+  template<class P> static void run(long c, const char* s, size_t n) { split_direct_with(&P::splitCommandLine, c, s, n); }
+  static const char* name() { return "direct"; }
+};
+template<> struct Splitter<false> {
+  template<class P> static void run(long c, const char* s, size_t n)
+  {
+    FILE* f = fopen("./ac.ctl", "w"); fprintf(f, "0 0\n"); fclose(f);
+    fflush(stdout);
+    char* line = (char*)malloc(n + sizeof(CHILD_PATH) + 1);         // exact size
+    memcpy(line, CHILD_PATH " ", sizeof(CHILD_PATH)); memcpy(line + sizeof(CHILD_PATH), s, n + 1);
+    String* cmdline = new String(line, strlen(line));
+    Process* p = new Process;
+    Buf out = {0, 0, 0};
+    bool ok = false;
+    if(sigsetjmp(jb, 1) == 0) {
+      arm(60 + (long)n / 100);     // CPU time of the parent up to the vfork (the splitting happens in there)
+      ok = p->open(*cmdline, Process::stdoutStream);
+      arm(0);
+    } else {
+      arm(0);
+      printf("%ld ! timeout\n", c); // p/cmdline are leaked on purpose (state unknown)
+      free(line);
+      return;
+    }
+    if(ok) {
+      static unsigned char rb[65536];
+      for(;;) { ssize r = p->read(rb, sizeof(rb)); if(r < 0 && errno == EINTR) continue; if(r <= 0) break; buf_add(out, rb, (size_t)r); }
+    }
+    uint32 code = 777; bool joined = ok && p->join(code);
+    delete p; delete cmdline; free(line);
+    // "A <hex>" per argument up to the line "."; the first one is the helper itself
+    int nw = -1; size_t i = 0; bool complete = false;
+    Buf ws = {0, 0, 0};
+    while(i < out.n) {
+      size_t j = i; while(j < out.n && out.d[j] != '\n') ++j;
+      if(j - i == 1 && out.d[i] == '.') { complete = true; break; }
+      if(j - i >= 2 && out.d[i] == 'A' && out.d[i + 1] == ' ') {
+        if(++nw > 0) { buf_add(ws, " ", 1); buf_add(ws, out.d + i + 2, j - i - 2); }
+      }
+      i = j + 1;
+    }
+    if(!ok || !joined || code != 0 || !complete || nw < 0) printf("%ld words ! open=%d join=%d exit=%u\n", c, ok ? 1 : 0, joined ? 1 : 0, (unsigned)code);
+    else { printf("%ld words %d", c, nw); if(ws.n) fwrite(ws.d, 1, ws.n, stdout); printf("\n"); }
+    free(out.d); free(ws.d);
+  }
+  static const char* name() { return "public"; }
+};
+typedef Splitter<SplitSeam<Process::Private>::direct> TheSplitter;
+
+static void do_split(long c, const char* hex)
+{
+  char* s = cstr_exact(hex);
+  TheSplitter::run<Process::Private>(c, s, strlen(s));
   free(s);
 }
 
 // ---- C: launch -------------------------------------------------------------------------------
-struct Buf { unsigned char* d; size_t n, cap; };
-static void buf_add(Buf& b, const void* p, size_t n)
-{
-  if(b.n + n > b.cap) { b.cap = (b.n + n) * 2 + 4096; b.d = (unsigned char*)realloc(b.d, b.cap); }
-  memcpy(b.d + b.n, p, n); b.n += n;
-}
 static void buf_file(Buf& b, const char* path)
 {
   int fd = ::open(path, O_RDONLY);
@@ -341,7 +415,9 @@ static void watchdog_disarm()
 static void do_launch(long c, vh::Tok& t)
 {
   // launch <api:open|start> <form:cmd|argv|argv0|list> <streams> <exit> <mode> <size> <seed> <hex: command line or executable> [profile]
-  // profile: norm (default) | again (a second open/start on the running Process must fail with EINVAL)
+  // profile: norm (default) | again (a second open/start on the running Process must be refused: all four entry points
+  //          return false and the running process is not disturbed; the errno each one leaves is printed in a second
+  //          section that only the model predicts - the property text does not name an errno)
   //          | fd0 (descriptor 0 of the parent is closed while the process is opened)
   //          | noexec (the executable does not exist: the child reports on stderr and exits with EXIT_FAILURE)
   const char* profile = t.n >= 10 ? t.v[9] : "norm";
@@ -488,7 +564,7 @@ static void do_launch(long c, vh::Tok& t)
   printf(" join=%d exit=%u running=%d out=%lu:%s err=%lu:%s io=%s", joined ? 1 : 0, (unsigned)exitCode, running ? 1 : 0,
          (unsigned long)on, out_ok ? "ok" : "bad", (unsigned long)errb.n, err_ok ? "ok" : "bad",
          (wa.failed || readfail) ? "fail" : "ok");
-  if(p_again) printf(" again=%d:%d,%d:%d,%d:%d,%d:%d", again_r[0], again_e[0], again_r[1], again_e[1], again_r[2], again_e[2], again_r[3], again_e[3]);
+  if(p_again) printf(" again=%d,%d,%d,%d | errno=%d,%d,%d,%d", again_r[0], again_r[1], again_r[2], again_r[3], again_e[0], again_e[1], again_e[2], again_e[3]);
   printf("\n");
   free(out.d); free(errb.d); free(payload); free(first);
 }
@@ -648,7 +724,11 @@ static void pobj_reset()
   p_ready = false;
 }
 static bool has_flag(vh::Tok& t, const char* f) { for(int i = 1; i < t.n; ++i) if(!strcmp(t.v[i], f)) return true; return false; }
-static const char* io_class(ssize r, int err) { return r > 0 ? "data" : r == 0 ? "eof" : err == EINVAL ? "refused" : "err"; }
+// What a call answers is printed as the caller sees it (1 / 0 for the bool results, data / eof / err for read and write).
+// Which errno a FAILED call leaves is not part of the property text: it goes into the second section (errno=EINVAL / other /
+// - when the call did not fail), which only the model predicts.
+static const char* io_class(ssize r) { return r > 0 ? "data" : r == 0 ? "eof" : "err"; }
+static const char* errno_class(bool failed, int e) { return !failed ? "-" : e == EINVAL ? "EINVAL" : "other"; }
 
 static void do_pobj(long c, vh::Tok& t)
 {
@@ -663,6 +743,7 @@ static void do_pobj(long c, vh::Tok& t)
   bool fd0 = has_flag(t, "fd0");
   unsigned streams = (t.n >= 2 && (launch || !strcmp(o, "pclose") || !strcmp(o, "pread2"))) ? (unsigned)atoi(t.v[1]) : 0;
   char res[64]; res[0] = 0;
+  const char* ecl = "-";
   static char buf[65536];
   int s1 = -1, s2 = -1;
   {                                         // descriptor 0: the scratch file with its 64 bytes, offset 0
@@ -686,21 +767,22 @@ static void do_pobj(long c, vh::Tok& t)
     char* none[1] = {0};
     bool ok = pp->open(String(CHILD_PATH, strlen(CHILD_PATH)), 1, none, streams);
     int e = errno;
-    snprintf(res, sizeof(res), "%s", ok ? "1" : e == EINVAL ? "refused" : "0");
+    snprintf(res, sizeof(res), "%s", ok ? "1" : "0"); ecl = errno_class(!ok, e);
   } else if(!strcmp(o, "pstart")) {
     char* none[1] = {0};
     uint32 r = pp->start(String(CHILD_PATH, strlen(CHILD_PATH)), 1, none);
     int e = errno;
-    snprintf(res, sizeof(res), "%s", r ? "1" : e == EINVAL ? "refused" : "0");
+    snprintf(res, sizeof(res), "%s", r ? "1" : "0"); ecl = errno_class(!r, e);
   } else if(!strcmp(o, "pjoin")) {
     uint32 code = 777;
     bool ok = pp->join(code);
     int e = errno;
-    if(ok) snprintf(res, sizeof(res), "1:%u", (unsigned)code); else snprintf(res, sizeof(res), "%s", e == EINVAL ? "refused" : "0");
+    if(ok) snprintf(res, sizeof(res), "1:%u", (unsigned)code); else snprintf(res, sizeof(res), "0");
+    ecl = errno_class(!ok, e);
   } else if(!strcmp(o, "pjoin0")) {          // join() without an exit code
     bool ok = pp->join();
     int e = errno;
-    snprintf(res, sizeof(res), "%s", ok ? "1" : e == EINVAL ? "refused" : "0");
+    snprintf(res, sizeof(res), "%s", ok ? "1" : "0"); ecl = errno_class(!ok, e);
   } else if(!strcmp(o, "pwait")) {           // Process::wait on this one object: the object, or 0 (interrupted / no child)
     Process* which = Process::wait(&pp, 1);
     p_intr = false; p_waited = true;
@@ -712,24 +794,27 @@ static void do_pobj(long c, vh::Tok& t)
   } else if(!strcmp(o, "pkill")) {
     bool ok = pp->kill();
     int e = errno;
-    snprintf(res, sizeof(res), "%s", ok ? "1" : e == EINVAL ? "refused" : "0");
+    snprintf(res, sizeof(res), "%s", ok ? "1" : "0"); ecl = errno_class(!ok, e);
   } else if(!strcmp(o, "pclose")) {
     pp->close(streams);
     snprintf(res, sizeof(res), "-");
   } else if(!strcmp(o, "pread")) {
     ssize r = pp->read(buf, sizeof(buf));
-    snprintf(res, sizeof(res), "%s", io_class(r, errno));
+    int e = errno;
+    snprintf(res, sizeof(res), "%s", io_class(r)); ecl = errno_class(r < 0, e);
   } else if(!strcmp(o, "pread2")) {
     uint s = streams;
     ssize r = pp->read(buf, sizeof(buf), s);
     int e = errno;
-    if(r >= 0) snprintf(res, sizeof(res), "%s:%u", io_class(r, e), (unsigned)s); else snprintf(res, sizeof(res), "%s", io_class(r, e));
+    if(r >= 0) snprintf(res, sizeof(res), "%s:%u", io_class(r), (unsigned)s); else snprintf(res, sizeof(res), "%s", io_class(r));
+    ecl = errno_class(r < 0, e);
   } else if(!strcmp(o, "pwrite")) {
     size_t n = t.n >= 2 ? (size_t)atol(t.v[1]) : 1;
     if(n > sizeof(buf)) n = sizeof(buf);
     memset(buf, 'w', n);
     ssize r = pp->write(buf, n);
-    snprintf(res, sizeof(res), "%s", io_class(r, errno));
+    int e = errno;
+    snprintf(res, sizeof(res), "%s", io_class(r)); ecl = errno_class(r < 0, e);
   } else if(!strcmp(o, "prun")) {
     snprintf(res, sizeof(res), "%d", pp->isRunning() ? 1 : 0);
   } else if(!strcmp(o, "pdel")) {
@@ -746,9 +831,9 @@ static void do_pobj(long c, vh::Tok& t)
   if(launch && pp && pp->pid) p_live = (pid_t)pp->pid;
   if(strstr(lg, "wait:ok")) p_live = 0;
   int held = count_now - p_base - ((launch) ? 2 : 0);      // s1/s2 (the saved stdout/stderr) were still open when counted
-  printf("%ld %s %s run %d held %d stray %d in0 %ld | out=%d err=%d in=%d | %s\n", c, o, res,
+  printf("%ld %s %s run %d held %d stray %d in0 %ld | out=%d err=%d in=%d errno=%s | %s\n", c, o, res,
          pp && pp->isRunning() ? 1 : 0, held, vk_stray(), in0,
-         pp && pp->fdStdOutRead ? 1 : 0, pp && pp->fdStdErrRead ? 1 : 0, pp && pp->fdStdInWrite ? 1 : 0, lg);
+         pp && pp->fdStdOutRead ? 1 : 0, pp && pp->fdStdErrRead ? 1 : 0, pp && pp->fdStdInWrite ? 1 : 0, ecl, lg);
   if(!pp) reap_live();                      // a destructor whose waitpid was made to fail leaves the child behind
 }
 
@@ -786,6 +871,7 @@ static void op(long c, long, vh::Tok& t)
 
 int main(int argc, char** argv)
 {
+  if(argc >= 2 && !strcmp(argv[1], "--seam")) { printf("split %s\n", TheSplitter::name()); return 0; }
   signal(SIGPIPE, SIG_IGN);
   struct sigaction sa; memset(&sa, 0, sizeof(sa));
   sa.sa_handler = on_vtalrm;
